@@ -83,7 +83,7 @@ def snapshot_diff(a, b) -> str:
 
 
 # ---------------------------------------------------------------- generation --------------------------
-NOISE = ["to_sql", "sql_exec", "repr", "to_python", "columns_used", "describe_table"]
+NOISE = ["to_sql", "sql_exec", "repr", "to_python", "columns_used", "describe_table", "derive", "derive"]
 
 
 def generate(run_seed: int, cfg: Dict[str, Any]) -> Dict[str, Any]:
@@ -168,6 +168,59 @@ def generate(run_seed: int, cfg: Dict[str, Any]) -> Dict[str, Any]:
         ops.append(op)
     return {"prop": PROP, "seed": run_seed, "faulty": faulty, "tables": tables, "tables_b": tables_b, "pipes": pipes,
             "index": index, "knobs": knobs, "ops": ops}
+
+
+def _derive(o) -> int:
+    """The client builds further pipelines on top of a pipeline object it keeps using, and throws them away: building
+    a derived pipeline must not alter the one it is derived from (the builder merges extends, collapses orderings and
+    column selections - all on objects the parent still owns). Purely a function of `o`; returns how many were built."""
+    from data_algebra.view_representations import ExtendNode
+
+    cols = [str(c) for c in o.column_names]
+    if not cols:
+        return 0
+    c0, cl = cols[0], cols[-1]
+    fresh = "zz_derived"
+    builds = []
+    if isinstance(o, ExtendNode):
+        kw = {}
+        if o.partition_by:
+            kw["partition_by"] = list(o.partition_by)
+        if o.order_by:
+            kw["order_by"] = list(o.order_by)
+        if o.reverse:
+            kw["reverse"] = list(o.reverse)
+        const = "7"
+        if o.windowed_situation:
+            const = "(1).cumsum()" if o.order_by else "(1).sum()"
+        produced = [str(k) for k in o.ops.keys()]
+        # re-define a column the last extend produced, with the same window: the builder merges the two steps
+        builds.append(lambda: o.extend({produced[-1]: const}, **kw))
+        builds.append(lambda: o.extend({produced[0]: const, fresh: const}, **kw))
+        builds.append(lambda: o.extend({fresh: const}, **kw))
+        if kw:
+            builds.append(lambda: o.extend({fresh: "(1).sum()"}, partition_by=kw.get("partition_by", 1)))
+    builds += [
+        lambda: o.extend({cl: "3"}),
+        lambda: o.extend({fresh: "1"}),
+        lambda: o.select_rows(f"{c0}.is_null()"),
+        lambda: o.order_rows([c0]),
+        lambda: o.order_rows([cl], reverse=[cl], limit=1),
+        lambda: o.rename_columns({fresh: c0}),
+        lambda: o.select_columns([c0]),
+        lambda: o.drop_columns([cl]) if len(cols) > 1 else None,
+        lambda: o.project({fresh: "_size()"}, group_by=[c0]),
+        lambda: o.natural_join(b=o, on=[c0], jointype="LEFT"),
+        lambda: o.concat_rows(b=o),
+    ]
+    n = 0
+    for b in builds:
+        try:
+            if b() is not None:
+                n += 1
+        except Exception:
+            pass
+    return n
 
 
 # ---------------------------------------------------------------- execution ---------------------------
@@ -344,6 +397,8 @@ def _run(scn, log: EventLog, stats: Stats):
                             o.to_python(pretty=True)
                         elif w == "columns_used":
                             o.columns_used()
+                        elif w == "derive":
+                            stats.probe("derived-pipelines-built", _derive(o))
                         elif w == "describe_table":
                             describe_table(pool["pd:" + tabs[0] + ":0"], table_name=tabs[0])
                             describe_table(pool["pl:" + tabs[0] + ":1"], table_name=tabs[0])
